@@ -7,6 +7,7 @@ import (
 	"go/constant"
 	"go/token"
 	"go/types"
+	"runtime/debug"
 	"sort"
 	"strconv"
 	"strings"
@@ -34,12 +35,16 @@ type ArrCell struct {
 	Fresh bool // no element was stored yet (all zero)
 }
 type PtrArrElem struct {
-	Cell *ArrCell
-	Idx  int
+	Cell    *ArrCell
+	Idx     int
+	Field   string // non-empty: pointer to that field of the (struct) element
+	FieldT  types.Type
+	StructT types.Type
 }
 type PtrSliceElem struct {
 	Slice Term
 	Idx   Term
+	Src   ssa.Value // the SSA value of the slice (to find where it was loaded from)
 	ElemT types.Type
 	Field string     // non-empty: pointer to that field of the (struct) element
 	FieldT types.Type
@@ -112,6 +117,8 @@ type FnCtx struct {
 	facts       []string
 	obligs      []*Oblig
 	nfresh      int
+	nquant      int
+	atCallSeen  map[*AtCall]bool
 	base        map[string]Term
 	baseSort    map[string]string
 	entry       *State
@@ -211,9 +218,19 @@ func (fc *FnCtx) define(prefix string, t Term) Term {
 	if len(t.S) < 24 && !strings.Contains(t.S, " ") {
 		return t
 	}
+	if strings.Contains(t.S, "q$") {
+		return t // mentions a bound variable of a quantifier or spec definition: cannot be named globally
+	}
 	fc.nfresh++
 	name := fmt.Sprintf("%s!%d", sanitize(prefix), fc.nfresh)
 	fc.declSet[name] = true
+	if strings.HasPrefix(t.Sort, "(Array ") && strings.HasPrefix(t.S, "(ite ") {
+		// a merged heap array: a declared constant, so that quantifier patterns may mention it
+		// (a define-fun is expanded inside patterns, and `ite` is not allowed there)
+		fc.decls = append(fc.decls, fmt.Sprintf("(declare-const %s %s)", name, t.Sort))
+		fc.fact(fmt.Sprintf("(= %s %s)", name, t.S))
+		return Term{name, t.Sort}
+	}
 	fc.decls = append(fc.decls, fmt.Sprintf("(define-fun %s () %s %s)", name, t.Sort, t.S))
 	return Term{name, t.Sort}
 }
@@ -231,6 +248,9 @@ func iteChain(conds []string, vals []string) string {
 }
 
 func (fc *FnCtx) unsupported(f string, a ...interface{}) {
+	if pat := os.Getenv("GOWP_DEBUG_UNSUP"); pat != "" && strings.Contains(fmt.Sprintf(f, a...), pat) {
+		debug.PrintStack()
+	}
 	fc.unsup = append(fc.unsup, fmt.Sprintf(f, a...))
 }
 
@@ -873,6 +893,29 @@ func (fr *frame) term(v ssa.Value) Term {
 		fc.assumes = append(fc.assumes, "&slice[i] used as a value is modelled as a pointer to a copy of the element (no store goes through such a pointer in the verified code)")
 		fr.vals[v] = r
 		return r
+	case *VarArgSlice:
+		// a composite literal []T{...} used as a value
+		if st, ok := v.Type().Underlying().(*types.Slice); ok && !isByte(st.Elem()) {
+			fc := fr.fc
+			es := fc.e.sortOf(st.Elem())
+			a := fmt.Sprintf("((as const %s) %s)", arr(SInt, es), fc.e.zero(es, st.Elem()).S)
+			okAll := true
+			for i, el := range t.Elems {
+				et, isT := el.(Term)
+				if !isT {
+					okAll = false
+					break
+				}
+				a = store(a, strconv.Itoa(i), et.S)
+			}
+			if okAll {
+				r := fc.define("lit", Term{fmt.Sprintf("(mkslc %s 0 %d)", a, len(t.Elems)), slc(es)})
+				for i, el := range t.Elems {
+					fc.fact(eq(fc.slcAt(r, strconv.Itoa(i)).S, el.(Term).S))
+				}
+				return r
+			}
+		}
 	case nil:
 		fr.fc.unsupported("value %s (%T) has no symbolic value in %s", v.Name(), v, fr.fn.Name())
 		return fr.fc.fresh("undef", fr.fc.e.sortOf(v.Type()))
